@@ -31,6 +31,11 @@ def run(ctx, broken):
     base = [l for l in mcommon.base_lines(ctx) if l.split(" ")[1] == "F"]
     if ctx["tier"] == "thorough":
         base += mcommon.exhaustive_lines(ctx, "F", "c04")
+    # corpus first: the witnesses of known finding K2 (prefix preference on the matrix path)
+    def cps(t):
+        return ",".join(str(ord(ch)) for ch in t)
+    corpus = [("xxxxxxxxxxx/axAbc", "abc"), ("a" + "x" * 18 + "aBcd", "abcd"), ("a" + "x" * 18 + "aBcdef", "abcdef")]
+    base = ["0110 F A A %s %s" % (cps(h), cps(n)) for h, n in corpus] + base
     # pair every prefer_prefix=0 case with its prefer_prefix=1 twin
     lines = []
     for l in base:
@@ -43,11 +48,13 @@ def run(ctx, broken):
                               "fuzzy_match / fuzzy_indices on the general streams, each input run with prefer_prefix off and on; compared: (decision, score); oracle: score <= brute-force best over all embeddings (haystack <= 9 chars), equality for one-character needles, 0 <= score(on) - score(off) <= 8. Non-trivial = distinct case with non-empty strings.", tag="c04")
     recs, _ = mcommon.run_lines(ctx, lines, "c04")
     off = {}
+    dpf = {}
     for line, io, mo, fa in recs:
         p = line.split(" ", 1)
         o = mcommon.parse_out(io)
         if p[0][3] == "0":
             off[(p[0][:3], p[1])] = o
+        dpf[line] = mcommon.parse_facts(fa).get("dp")
     for line, io, mo, fa in recs:
         p = line.split(" ", 1)
         if p[0][3] == "1":
@@ -55,9 +62,15 @@ def run(ctx, broken):
             o1 = mcommon.parse_out(io)
             if o0 and o0["k"] == "M" and o1["k"] == "M" and not (0 <= o1["score"] - o0["score"] <= 8) and len(res["failures"]) < 400:
                 c = mcommon.parse_case(line)
-                res["failures"].append({"class": "prefix", "what": "prefer_prefix changes the score from %d to %d (must not lower it nor raise it by more than 8) -- %s" % (o0["score"], o1["score"], mcommon.show_case(c)), "case": line})
+                res["failures"].append({"class": "prefix", "what": "prefer_prefix changes the score from %d to %d (must not lower it nor raise it by more than 8) -- %s" % (o0["score"], o1["score"], mcommon.show_case(c)), "case": line,
+                                        "k2": bool(c["algo"] == "F" and len(c["n"]) >= 3 and dpf.get(line) == 1)})
     return res
 
 
 def known(f, kf):
+    # K2: optimal matcher on the matrix path, needle of three or more characters (Props/C04.v known_K2)
+    if f.get("class") == "prefix" and f.get("k2"):
+        for k in kf.get("known", []):
+            if k["id"] == "K2":
+                return k
     return None
